@@ -28,7 +28,7 @@ OP_WALL_S = 20.0  # wall guard only: exceeding it is *inconclusive*, never a ver
 OP_ID_BUDGET = 400000  # logical step budget per op (seam calls): bounds a run deterministically; exceeding it is inconclusive
 
 VECTOR_TAGS = {"v", "vf", "vzero", "vadd", "vscale", "vneg", "cross"}
-SCALAR_TAGS = {"s", "q", "t", "sf", "dot", "mixed", "norm", "sadd", "smul", "spow", "sneg", "sinv"}
+SCALAR_TAGS = {"s", "q", "t", "sf", "dot", "mixed", "norm", "sadd", "smul", "spow", "sneg", "sinv", "ssqrt"}
 
 # ============================================================================ generator
 # (driver side; pure functions of the PRNG)
@@ -68,8 +68,8 @@ def _gen_scalar(rng, d, cfg):
         if r < 0.7 and cfg["ns"]:
             return ["s", rng.randrange(cfg["ns"])]
         return _gen_rat(rng)
-    kind = rng.choices(["dot", "mixed", "norm", "sadd", "smul", "spow", "sneg", "sinv"],
-        [w["dot"], w["mixed"], w["norm"], w["sadd"], w["smul"], w["spow"], w["sneg"], w["sinv"]])[0]
+    kind = rng.choices(["dot", "mixed", "norm", "sadd", "smul", "spow", "sneg", "sinv", "ssqrt"],
+        [w["dot"], w["mixed"], w["norm"], w["sadd"], w["smul"], w["spow"], w["sneg"], w["sinv"], w["ssqrt"]])[0]
     if kind == "dot":
         return ["dot", _gen_vec(rng, d - 1, cfg), _gen_vec(rng, d - 1, cfg)]
     if kind == "mixed":
@@ -84,6 +84,17 @@ def _gen_scalar(rng, d, cfg):
         return ["spow", _gen_scalar(rng, d - 1, cfg), rng.choice([2, 2, 3])]
     if kind == "sneg":
         return ["sneg", _gen_scalar(rng, d - 1, cfg)]
+    if kind == "ssqrt":
+        # a non-polynomial coefficient: sqrt of a product / square of scalar symbols (the symbols may
+        # take negative values; the value is still well defined, possibly complex, and must be preserved)
+        if not cfg["ns"]:
+            return _gen_rat(rng)
+        free = [i for i, a in enumerate(cfg["assumes"]) if a in ("none", "real")]
+        i = rng.randrange(cfg["ns"])
+        if len(free) >= 1 and rng.random() < 0.7:
+            i, j = rng.choice(free), rng.choice(free)  # same sign at each evaluation point: real value
+            return ["ssqrt", ["smul", ["s", i], ["s", j]]]
+        return ["ssqrt", ["spow", ["s", i], 2]]
     # reciprocal of a leaf only: the reference must never divide by an accidental zero
     r = rng.random()
     if r < 0.35:
@@ -112,7 +123,15 @@ def _template(rng, cfg):
         return terms[0] if len(terms) == 1 else ["vadd"] + terms
 
     a, b, c, d = v(), v(), v(), v()
-    pick = rng.choice(["norm_scaled_by_product", "dot_cross_span", "dot_cross_cross", "cross_cross_left", "cross_cross_right", "cross_cross_cross", "mixed_repeated", "mixed_composite", "norm_common_factor", "unit_vector"])
+    pick = rng.choice(["norm_scaled_by_product", "dot_cross_span", "dot_cross_cross", "cross_cross_left", "cross_cross_right", "cross_cross_cross", "mixed_repeated", "mixed_composite", "norm_common_factor", "unit_vector", "sqrt_coefficient"])
+    if pick == "sqrt_coefficient" and cfg["ns"]:
+        free = [i for i, a in enumerate(cfg["assumes"]) if a in ("none", "real")]
+        if free:
+            k = ["ssqrt", ["smul", ["s", rng.choice(free)], ["s", rng.choice(free)]]]
+        else:
+            k = ["ssqrt", ["spow", ["s", rng.randrange(cfg["ns"])], 2]]
+        scaled = ["vadd", ["vscale", k, a, "l"], b]
+        return rng.choice([["dot", scaled, c], ["cross", scaled, c], ["mixed", scaled, c, d], ["norm", scaled]])
     if pick == "norm_scaled_by_product":
         prod = rng.choice([["mixed", b, a, ["vadd", c, d]], ["dot", ["vneg", a], ["vadd", a, b]], ["dot", ["cross", a, b], ["vadd", c, d]], ["sneg", ["sadd", ["dot", a, b], ["mixed", a, b, c]]]])
         return ["norm", ["vscale", prod, rng.choice([a, b, c]), rng.choice("lr")]]
@@ -162,8 +181,10 @@ def generate(seed: int, run: int, tier: str) -> dict:
         "spow": rng.choice([0, 1]),
         "sneg": rng.choice([0, 1]),
         "sinv": rng.choice([0, 0, 1]),
+        "ssqrt": rng.choice([0, 0, 1, 2]),
     }
-    cfg = {"nv": nv, "ns": ns, "nf": nf, "has_t": has_t, "has_sf": has_sf, "w": w, "p_vf": rng.choice([0.2, 0.5])}
+    assumes = [rng.choice(["none", "real", "positive", "negative"]) for _ in range(ns)]
+    cfg = {"nv": nv, "ns": ns, "nf": nf, "has_t": has_t, "has_sf": has_sf, "w": w, "p_vf": rng.choice([0.2, 0.5]), "assumes": assumes}
     depth = rng.choice([2, 3, 3, 4, 4, 5])
     n_exprs = rng.choice([1, 2, 3, 4])
     cap = rng.choice([8, 14, 14, 22, 22, 34]) if tier == "quick" else rng.choice([8, 14, 22, 34, 50])
@@ -181,7 +202,6 @@ def generate(seed: int, run: int, tier: str) -> dict:
     p_evict = rng.choice([0.0, 0.0, 0.2, 0.5])
     p_clear = rng.choice([0.0, 0.1, 0.4])
     p_diff = rng.choice([0.0, 0.3, 0.7]) if has_t else rng.choice([0.0, 0.1])
-    assumes = [rng.choice(["none", "real", "positive", "negative"]) for _ in range(ns)]
     fargs = [rng.choice([["t"], ["t"], ["t", "s0"], ["s0", "t"], ["0", "t"], ["t", "0"]]) if ns else rng.choice([["t"], ["t"], ["0", "t"]]) for _ in range(nf)]
     # declared signature of each vector function (None, equal to, or different from what it is applied to)
     fdecl = [rng.choice([None, None, "same", ["t"], ["s0"]]) for _ in range(nf)]
@@ -194,10 +214,12 @@ def generate(seed: int, run: int, tier: str) -> dict:
         if rng.random() < 0.3:
             ops.append({"op": "bump", "prefix": "SYM", "to": rng.choice([9, 99, 999, 9999]) * rng.choice([1, 1, 1, 2, 5]) - rng.randrange(0, 8)})
         # display names: distinct, all equal ("F" used by several laws), or defaulted
-        naming = rng.choice(["distinct", "distinct", "same", "same", "default", "pairs"])
-        names = {"distinct": [f"v{i}" for i in range(nv)], "same": ["F"] * nv, "default": [None] * nv, "pairs": [f"u{i // 2}" for i in range(nv)]}[naming]
+        naming = rng.choice(["distinct", "distinct", "same", "same", "default", "pairs", "digits"])
+        names = {"distinct": [f"v{i}" for i in range(nv)], "same": ["F"] * nv, "default": [None] * nv, "pairs": [f"u{i // 2}" for i in range(nv)],
+                 "digits": ["r1"] + ["r"] * (nv - 1)}[naming]
+        junk = {"name": "r", "k": rng.choice([8, 9, 10, 11, 19, 20])} if naming == "digits" else None
         fnames = rng.choice([None, ["F"] * nf]) if nf else None
-        ops.append({"op": "fresh", "order": order, "vids": [_vid(rng) for _ in order], "assume": assumes, "fargs": fargs, "fdecl": fdecl, "sorder": rng.sample(range(ns), ns), "names": names, "fnames": fnames})
+        ops.append({"op": "fresh", "order": order, "vids": [_vid(rng) for _ in order], "assume": assumes, "fargs": fargs, "fdecl": fdecl, "sorder": rng.sample(range(ns), ns), "names": names, "fnames": fnames, "junk": junk})
         for ast in asts:
             if rng.random() < p_clear:
                 ops.append({"op": "clear_cache"})
@@ -416,6 +438,10 @@ class Bindings:
                 num = abs(num)
             elif a == "negative":
                 num = -abs(num)
+            else:
+                # symbols without a sign assumption are all negative at point 0 and all positive at
+                # point 1, so that sqrt(s_i * s_j) of two such symbols is real at both points
+                num = -abs(num) if self.point == 0 else abs(num)
         return (num, den)
 
     def vf_coeffs(self, j):
@@ -531,6 +557,8 @@ def ref_eval(ast, dom: Domain):
         return -ref_eval(ast[1], dom)
     if tag == "sinv":
         return 1 / ref_eval(ast[1], dom)
+    if tag == "ssqrt":
+        return dom.sqrt(ref_eval(ast[1], dom))
     raise ValueError(f"bad ast tag {tag}")
 
 
@@ -802,6 +830,8 @@ def _build(ast, world: World, ev):
         return -_build(ast[1], world, ev)
     if tag == "sinv":
         return 1 / _build(ast[1], world, ev)
+    if tag == "ssqrt":
+        return sp.sqrt(_build(ast[1], world, ev))
     raise ValueError(tag)
 
 
@@ -834,6 +864,11 @@ def _fresh(world: World, op: dict) -> None:
     world.fargs = [list(a) for a in op.get("fargs", [])]
     vids = op.get("vids") or []
     world.names = list(op.get("names") or [])
+    junk = op.get("junk")
+    if junk:
+        # the session already holds many vector symbols with one display name
+        for _ in range(int(junk["k"])):
+            world.keep.append(vm.VectorSymbol(junk["name"]))
     for pos, i in enumerate(op.get("order", [])):
         _new_vec(world, i, vids[pos] if pos < len(vids) else None)
     world.scalars = {}
